@@ -1,0 +1,31 @@
+//go:build verif
+// +build verif
+
+// Contracts for package scan, read by /verif's govc (contract-based deductive verification).
+// This file contains comments only; it is compiled only under the build tag "verif" and adds no code.
+
+package scan
+
+//@ import "strings"
+//@ import "unicode/utf8"
+
+// ---- the segment scanner (C16): what the permission matcher's assumed contract of Scan rests on ----------------------
+// idxRune(s, r): byte index of the first occurrence of r in s, -1 if there is none (strings.IndexRune, assumed);
+// runeLen(r): length of r's UTF-8 encoding (utf8.RuneLen, assumed)
+//@ spec func idxRune(s string, r rune) int = uninterpreted
+//@ spec func runeLen(r rune) int = uninterpreted
+//@ extern func strings.IndexRune(s string, r rune) (i int)
+//@   modifies
+//@   ensures i == idxRune(s, r) && -1 <= i && (i >= 0 ==> 1 <= runeLen(r) && runeLen(r) <= 4 && i <= len(s) - runeLen(r))
+//@ extern func strings.TrimFunc(s string, f func(rune) bool) (r string)
+//@   modifies
+//@   ensures len(r) <= len(s)
+// Scan splits at the FIRST delimiter: scanning continues exactly when the string contains the delimiter - also when
+// nothing but blanks follows it (an empty last segment is a segment: "/a/b/ /" has one more segment than "/a/b") -;
+// the token comes from the text before the delimiter, the rest from the text after it
+//@ func (s Scanner) Scan(str string) (advance string, token string, continueScan bool)
+//@   requires s.delimLen == runeLen(s.delim)
+//@   modifies
+//@   ensures continueScan == (idxRune(str, s.delim) >= 0)
+//@   ensures continueScan ==> len(token) <= idxRune(str, s.delim) && len(advance) <= len(str) - idxRune(str, s.delim) - runeLen(s.delim)
+//@   ensures !continueScan ==> len(advance) == 0 && len(token) <= len(str)
